@@ -4,8 +4,11 @@ import json, glob, os, sys
 ROOT = os.path.dirname(os.path.dirname(os.path.abspath(__file__)))
 head = json.load(open(os.path.join(ROOT, "tools", "manifest_head.json")))
 ids = [json.loads(l)["id"] for l in open(os.path.join(ROOT, "properties.jsonl")) if l.strip()]
+hold = set(open(os.path.join(ROOT, "tools", "hold.txt")).read().split()) if os.path.exists(os.path.join(ROOT, "tools", "hold.txt")) else set()
 checks = []
 for pid in ids:
+    if pid in hold:
+        continue
     p = os.path.join(ROOT, "checks", pid + ".manifest.json")
     if os.path.exists(p) and os.path.exists(os.path.join(ROOT, "checks", pid + ".json")):
         c = json.load(open(p))
